@@ -29,6 +29,13 @@ CHECKS['C20']=dict(level='exploration', ref='4.20', technique='deterministic sim
 CHECKS['C16']=dict(level='exploration', ref='4.16', technique='deterministic simulation: emission order of optional parameters chosen by the seed through a tag-guarded hook, tails truncated / corrupted on the link, both parsers of each container compared with a model triplet parser',
    text='Sets of 0..32 parameters (value lengths on the 16-bit edges) are serialised in a seed-chosen order and parsed by both entry points of each container and through the five PDU types that carry them; damaged tails must never yield a parameter that is not completely present; oversize values, Add on an empty container and typed accessors on short values are exercised.',
    note='Go map iteration order is replaced by the seed through verifhook.ReorderTriplets; the tag / length value space is sampled.')
+LS_NOTE='Texts are sampled (boundary-biased), not enumerated; the handset uses reference decoders written from the standards (GB18030 via x/text); packed GSM-7 parts are unpacked with the septet count a handset is told.'
+CHECKS['C06']=dict(level='exploration', ref='4.6', technique='deterministic simulation: ESME -> SMSC -> air link (seeded reordering, duplication, interleaving) -> handset with reference decoders; exactly-once / conservation oracle over the delivery history',
+   text='1..8 messages per run are split by the library, every part travels in its own submit PDU through the real framer and decoder and then over an air link that reorders, duplicates and interleaves parts; the handset reassembles by header and decodes with reference decoders. Every submitted text must be displayed exactly once and unaltered, under the reported coding (requested one iff it can represent the text, else UCS-2).', note=LS_NOTE)
+CHECKS['C07']=dict(level='exploration', ref='4.7', technique='deterministic simulation: per-part invariants checked at the SMSC, reassembly at the handset through the library\'s header parser under seeded interleaving of 8-bit and 16-bit-reference messages',
+   text='Every part produced is checked for size, header octets, counters and part count against a reference greedy splitter (more than 255 parts must be refused); the handset reassembles with ParseLongSmsContent while a second vendor sends 16-bit-reference messages whose references collide when ORed; exact tuples and near-miss headers are sampled on the parser.', note=LS_NOTE)
+CHECKS['C14']=dict(level='exploration', ref='4.14', technique='deterministic simulation: per-part decode at the handset (reference decoders) after seeded reordering on the air link; multi-unit characters generated across every part boundary',
+   text='Texts with GSM-7 escape pairs, surrogate pairs and 2-/4-octet GB18030 characters placed at offsets -2..+1 around every part boundary are split, transported and reassembled; each part must decode on its own and the concatenation of the separately decoded parts must equal the text.', note=LS_NOTE)
 PENDING = {}
 def load_extra():
     try:
